@@ -20,6 +20,8 @@ REPLAY = os.path.join(EVID, "replay")
 LOCK = os.path.join(COQ, ".build.lock")
 FORBIDDEN = r"\b(Admitted|admit|Axiom|Parameter|Conjecture|bypass_check)\b|Unset Guard|Admit Obligations|-type-in-type|-impredicative-set"
 
+_HELD = None      # the build lock while held by this process (regen -> build)
+
 PROOF_KW = re.compile(r"^\s*(?:Local\s+|Global\s+|Program\s+)?(Theorem|Lemma|Example|Corollary|Fact|Proposition|Remark)\s+([A-Za-z0-9_']+)", re.M)
 
 
@@ -43,8 +45,13 @@ def regen():
     from harness.translator.pyz import Refused
     status = {}
     os.makedirs(os.path.join(COQ, "Gen"), exist_ok=True)
-    with open(LOCK, "w") as lk:
-        fcntl.flock(lk, fcntl.LOCK_EX)
+    # the lock is taken here and kept until the following build() has finished, so that no
+    # other check can regenerate Gen/ from a different tree in between
+    global _HELD
+    if _HELD is None:
+        _HELD = open(LOCK, "w")
+        fcntl.flock(_HELD, fcntl.LOCK_EX)
+    if True:
         for name, mod in UNITS.items():
             path = os.path.join(COQ, "Gen", name + ".v")
             try:
@@ -109,8 +116,20 @@ def build(prop_file, timeout=1500):
     deps = [f for f in closure(prop_file) if f != prop_file]
     res = {"prop_file": prop_file, "deps": sorted(deps), "ok": False, "failed_file": None,
            "log_tail": "", "assumptions": "", "cmds": []}
-    with open(LOCK, "w") as lk:
-        fcntl.flock(lk, fcntl.LOCK_EX)
+    global _HELD
+    if _HELD is None:
+        _HELD = open(LOCK, "w")
+        fcntl.flock(_HELD, fcntl.LOCK_EX)
+    try:
+        return _build_locked(prop_file, timeout, deps, res, t0)
+    finally:
+        fcntl.flock(_HELD, fcntl.LOCK_UN)
+        _HELD.close()
+        _HELD = None
+
+
+def _build_locked(prop_file, timeout, deps, res, t0):
+    if True:
         ensure_makefile()
         targets = " ".join(d[:-2] + ".vo" for d in deps)
         cmd = f"timeout {timeout} make -j8 {targets}"
